@@ -695,7 +695,7 @@ class _State(object):
     def op_to_affine(self, op):
         env = self.env
         e = self.pick(op["i"])
-        if e.legacy or not hasattr(e.obj, "to_affine"):
+        if e.val is O or e.legacy or not hasattr(e.obj, "to_affine"):
             return
         self.record_state("to_affine", e)
         y0 = self.y0_scope("add", e)
@@ -710,7 +710,7 @@ class _State(object):
         self.check_point_result("to_affine", res, e.val,
                                 lambda: e.fresh(env).to_affine(), y0)
         if e.val is not O:
-            self.put_result(res, e.val)
+            self.put_result(res, e.val, y0)
 
     def op_from_affine(self, op):
         env = self.env
@@ -741,7 +741,7 @@ class _State(object):
             return
         self.check_point_result("double", res, want,
                                 lambda: e.fresh(env).double(), y0)
-        self.put_result(res, want)
+        self.put_result(res, want, y0)
 
     def _res_flags(self, a, b, want):
         """order / legacy flags of the result of a + b as the library
@@ -769,7 +769,7 @@ class _State(object):
             return
         self.check_point_result(
             "add", res, want, lambda: a.fresh(env) + b.fresh(env), y0)
-        self.put_result(res, want)
+        self.put_result(res, want, y0)
 
     def _flags_of(self, res):
         le = self.env.le
@@ -783,12 +783,17 @@ class _State(object):
             order = int(order)
         return order, isinstance(res, le.Point)
 
-    def put_result(self, res, want):
+    def put_result(self, res, want, y0=False):
         """Add an operation's result to the pool with the flags the object
-        itself carries.  A result that inherited a declared order which does
+        itself carries.  Results obtained inside the scope of the open y = 0
+        finding are not kept: the object may denote the 2-torsion point where
+        the model says identity (or vice versa) even when the normalised
+        outcome happened to agree.  A result that inherited a declared order which does
         not annihilate it (possible only on cofactor curves, when a subgroup
         point was added to a point outside the subgroup) is outside the
         precondition of scalar multiplication and is not kept."""
+        if y0:
+            return None
         order, legacy = self._flags_of(res)
         if order and want is not O and \
                 ec.mul(self.env.mc, order, want) is not O:
@@ -809,7 +814,7 @@ class _State(object):
         if not ok:
             return
         self.check_point_result("neg", res, want, lambda: -e.fresh(env), y0)
-        self.put_result(res, want)
+        self.put_result(res, want, y0)
 
     def op_mul(self, op, right=False):
         env = self.env
@@ -829,7 +834,7 @@ class _State(object):
             return
         self.state_changing += 1
         self.check_point_result("mul", res, want, ff, y0)
-        self.put_result(res, want)
+        self.put_result(res, want, y0)
 
     def op_rmul(self, op):
         self.op_mul(op, right=True)
@@ -856,7 +861,7 @@ class _State(object):
         self.check_point_result(
             "mul_add", res, want,
             lambda: a.fresh(env).mul_add(ka, b.fresh(env), kb), y0)
-        self.put_result(res, want)
+        self.put_result(res, want, y0)
 
     def op_eq(self, op, ne=False):
         env = self.env
